@@ -87,6 +87,10 @@ impl Uci {
             UCICommand::Quit => {
                 unreachable!("Quit command should be handled in the main loop")
             }
+            #[cfg(rce_verif)]
+            UCICommand::VerifDump => {
+                self.log(format!("verifdump {}", crate::verif_driver::dump_board(&self.board)));
+            }
             UCICommand::SetOption { name, value } => {
                 self.setoption(&name, value.as_ref()).unwrap_or_else(|err| {
                     self.elog(format!("Failed to set option: {err}"));
@@ -142,7 +146,11 @@ impl Uci {
         self.search_running = Some(search.running.clone());
         self.join_handle = Some(thread::spawn(move || {
             search.search(&SimpleEvaluator, max_depth);
+            #[cfg(rce_verif)]
+            crate::search::verif::schedule_point("THREAD_EXIT");
         }));
+        #[cfg(rce_verif)]
+        crate::search::verif::schedule_point("AFTER_SPAWN");
     }
 
     fn setoption(&self, name: &String, value: Option<&String>) -> Result<(), String> {
@@ -151,6 +159,12 @@ impl Uci {
         self.log(format!("{value:?}"));
         Err("Setting options is not implemented yet".to_string())
     }
+}
+
+#[cfg(rce_verif)]
+/// Verification hook: parse one already tokenised line as the command loop does.
+pub fn verif_parse(fields: &[&str]) -> Result<String, String> {
+    UCICommand::new(fields).map(|c| format!("{c:?}"))
 }
 
 ////////////////////////////////////////////////////////////////////////////////
